@@ -1,6 +1,6 @@
 ------------------------------ MODULE Gen_Disk ------------------------------
 (* The specification's own image writer: lays the stored streams of the given files into the given granule chains
-   (any order, any fragmentation), builds the allocation table and directory.  Output: sparse image
+   (any order, any fragmentation), builds the allocation table and directory (files in the given slots, killed entries in between).  Output: sparse image
    [id, fat (68), dir (2304), grans : Seq([g, b])]; the harness expands it to the 161,280-byte file.          *)
 EXTENDS Tr_Disk
 RECURSIVE PadTo(_, _)
@@ -19,7 +19,14 @@ Write(t) ==
                               LET j == CHOOSE j \in own : TRUE
                                   i == CHOOSE i \in DOMAIN chains[j] : chains[j][i] = g
                               IN IF i < Len(chains[j]) THEN chains[j][i + 1] ELSE 192 + SectorsOf(lastx(j))]
-      dir == FlattenSeq([j \in 1..nf |-> DirBytes(files[j], chains[j][1], LastBytesOf(lastx(j)))]) \o [k \in 1..(32 * (SLOTS - nf)) |-> 255]
+      \* t.slots[j]: the directory slot of file j (strictly increasing). A slot below the last used one that holds no file is a KILLED
+      \* entry (first byte $00, the rest stale) - Disk BASIC skips those; slots behind the last used one were never used ($FF).
+      slots == t.slots
+      top == IF nf = 0 THEN 0 ELSE slots[nf]
+      Killed == <<0, 73, 76, 76, 69, 68, 32, 32, 66, 65, 83, 0, 0, 5, 0, 9>> \o [k \in 1..16 |-> 0]
+      dir == FlattenSeq([sl \in 1..SLOTS |-> IF \E j \in 1..nf : slots[j] = sl
+                                              THEN LET j == CHOOSE j \in 1..nf : slots[j] = sl IN DirBytes(files[j], chains[j][1], LastBytesOf(lastx(j)))
+                                              ELSE IF sl < top THEN Killed ELSE [k \in 1..32 |-> 255]])
       grans == FlattenSeq([j \in 1..nf |-> [i \in DOMAIN chains[j] |-> [g |-> chains[j][i], b |-> Piece(S(j), i)]]])
   IN [id |-> t.id, fat |-> fat, dir |-> dir, grans |-> grans]
 InitW == x = 0 /\ ndJsonSerialize(IOEnv.OUT_FILE, [k \in DOMAIN Batch |-> Write(Batch[k])])
